@@ -9,3 +9,14 @@ pub mod gencrate;
 pub mod genrun;
 pub mod tracerun;
 pub mod fuzzrun;
+
+/// Root of the verification tree: `$VERIF_ROOT` (set by the `vcheck` script from its own location) or `/verif`.
+/// Lets a snapshot of the tree (e.g. a background run) build and run without touching the live one.
+pub fn root() -> std::path::PathBuf {
+    std::path::PathBuf::from(std::env::var("VERIF_ROOT").unwrap_or_else(|_| "/verif".to_string()))
+}
+
+/// `root()` joined with a relative path, as a String
+pub fn rooted(rel: &str) -> String {
+    root().join(rel).to_string_lossy().to_string()
+}
